@@ -16,7 +16,7 @@ RULE = ("random merged S(Q) (Q>0, 8-40 points), r grid (5-25 points, Rmin 0 or >
         "correction flag, cutoff; a random legal sequence of 1-8 operations (thorough 1-30) out of transform / filter / lorch / "
         "keen-F(Q) / keen-G(r); every step is compared with a direct library call and with the other orders; "
         "non-trivial = the sequence contains a filter and at least one repeated operation")
-DIST = ["rsf", "lowq", "nops", "retuned", "qwin", "cutkind"]
+DIST = ["rsf", "lowq", "nops", "retuned", "qwin", "cutkind", "qzero"]
 SHRINK = None
 TRUSTED = ["lean/PystogVerif/Model/Workflow.lean is a hand-written state machine for the five workflow steps whose numeric work is the "
            "generated code; tied to /repo by the op-sequence correspondence (all master dictionaries after every step)"]
@@ -29,6 +29,9 @@ def gen(rng, i, tier):
     q, _ = grid(rng, n=int(rng.integers(8, 40)), zero=False, lo=float(rng.uniform(0.2, 1.0)), hi=float(rng.uniform(8, 25)))
     q = np.round(q, 2)
     q = np.unique(q)
+    qzero = bool(rng.random() < 0.15)
+    if qzero:
+        q = np.concatenate([[0.0], q])      # a merged grid whose first bin is Q = 0
     s, _ = data(rng, q, kind=str(rng.choice(["noise", "smooth"])), base=1.0)
     rmin = 0.0 if rng.random() < 0.5 else 0.1
     nops = int(rng.integers(1, 9 if tier == "quick" else 31))
@@ -45,7 +48,7 @@ def gen(rng, i, tier):
         # a cutoff that leaves exactly one stored r point in [0, cutoff] (the first grid point itself, or anywhere below the second)
         cutoff = rmin if rng.random() < 0.4 else rmin + float(rng.uniform(0.05, 0.9)) * rdelta
         cutkind = "one-point"
-    return dict(cutkind=cutkind, q=tolist(q), s=tolist(s), rsf=int(rng.integers(0, 3)), rho=float(10 ** rng.uniform(-2, -0.5)), bcoh=float(rng.uniform(0.5, 6)),
+    return dict(qzero=qzero, cutkind=cutkind, q=tolist(q), s=tolist(s), rsf=int(rng.integers(0, 3)), rho=float(10 ** rng.uniform(-2, -0.5)), bcoh=float(rng.uniform(0.5, 6)),
                 lowq=bool(rng.random() < 0.4), cutoff=cutoff, rmin=rmin, rmax=float(rng.uniform(3, 6)),
                 rdelta=rdelta, ops=ops, nops=nops, rho2=float(10 ** rng.uniform(-2, -0.5)), bcoh2=float(rng.uniform(0.5, 6)),
                 retuned=any(o >= 5 for o in ops),
